@@ -261,7 +261,8 @@ def _supported(draw):
     classes, ccont = draw(_classes(kind, labeled_vals, ml))
     return dict(mode="supported", kind=kind, container=container,
                 shape=shape, values=vals, ml=ml, classes=classes,
-                classes_container=ccont)
+                classes_container=ccont,
+                refit=draw(st.integers(0, 3)) == 0)
 
 
 NUM_ML = st.one_of(
@@ -476,8 +477,17 @@ def _run_supported(case):
                   f"{'+' if len(want_classes) > 4 else ''}")
 
     def enc_roundtrip():
-        le = ExtLabelEncoder(classes=build_classes(case),
-                             missing_label=ml_value(ml))
+        if case.get("refit"):
+            # the encoder object was used before with other parameters
+            # (an explicit numeric class list and the NaN sentinel); fit
+            # must rebuild everything from the current parameters
+            le = ExtLabelEncoder(classes=[20, 5, 10, 2])
+            le.fit(np.array([5.0, np.nan, 20.0]))
+            le.set_params(classes=build_classes(case),
+                          missing_label=ml_value(ml))
+        else:
+            le = ExtLabelEncoder(classes=build_classes(case),
+                                 missing_label=ml_value(ml))
         le.fit(build_y(case))
         t = le.transform(build_y(case))
         inv = le.inverse_transform(t)
